@@ -16,6 +16,18 @@ Theorem C04_alias_sound :
 Proof. exact C04_alias_sound_proof. Qed.
 Print Assumptions C04_alias_sound.
 
+(* ... and it does so by touching function names and keys only, exactly per the alias table: negation, outbound
+   and every VALUE are carried over verbatim (no case folding, no rewriting of regular expressions). *)
+Theorem C04_alias_preserves_values :
+  forall rules : list rule,
+    map rule_values (alias_opt rules) = map rule_values rules
+    /\ forall r f, In r rules -> In f (r_funcs r) ->
+         f_name (alias_func f) = canon_fname (f_name f)
+         /\ map p_key (f_params (alias_func f)) = map (canon_key (canon_fname (f_name f))) (map p_key (f_params f))
+         /\ map p_val (f_params (alias_func f)) = map p_val (f_params f).
+Proof. exact C04_alias_preserves_values_proof. Qed.
+Print Assumptions C04_alias_preserves_values.
+
 (* DatReaderOptimizer: replacing geosite/geoip/ext references by their expansion, in place. *)
 Theorem C04_dat_sound :
   forall (packet D : Type) (atom_sem : string -> string -> string -> packet -> bool) (out_sem : func -> option D)
